@@ -288,10 +288,13 @@ type loadCase struct {
 	Name    string   `json:"name"`
 	Path    string   `json:"path_kind"`
 	Entries []string `json:"entries"` // entry kinds in file-name order (position i is file "f<i>-<kind>")
+	// Prior 1: the same trust-store instance first loaded the sibling store of the same type ("sibling") and the
+	// store of the same name in the other type (both hold a valid decoy); the judged load must behave as on a fresh instance.
+	Prior int `json:"prior,omitempty"`
 }
 
 func (c loadCase) String() string {
-	return fmt.Sprintf("%s|type=%q|name=%q|path=%s|entries=%s", c.Part, c.Type, c.Name, c.Path, strings.Join(c.Entries, ","))
+	return fmt.Sprintf("%s|type=%q|name=%q|path=%s|entries=%s|prior=%d", c.Part, c.Type, c.Name, c.Path, strings.Join(c.Entries, ","), c.Prior)
 }
 
 var goodContent = []string{"pem-ca", "der-ca"}
@@ -580,11 +583,22 @@ func runCase(scratch string, idx int, c loadCase) (res result) {
 
 	// ---- the real code
 	ts := truststore.NewX509TrustStore(dir.NewSysFS(root))
+	if c.Prior == 1 {
+		other := truststore.TypeSigningAuthority
+		if c.Type == string(other) {
+			other = truststore.TypeCA
+		}
+		_, _ = ts.GetCertificates(context.Background(), truststore.Type(c.Type), "sibling")
+		_, _ = ts.GetCertificates(context.Background(), other, c.Name)
+	}
 	certs, lerr := ts.GetCertificates(context.Background(), truststore.Type(c.Type), c.Name)
 
 	tl, _ := lookup(storeTypes, c.Type)
 	nl, _ := lookup(storeNames, c.Name)
 	add := func(key, format string, a ...any) {
+		if c.Prior == 1 {
+			key += ":after-other-loads-on-same-trust-store"
+		}
 		res.findings = append(res.findings, finding{key, fmt.Sprintf(format, a...) + " [" + c.String() + "]"})
 	}
 	typeClass := tl.Label
@@ -746,16 +760,21 @@ func main() {
 			for i, k := range s {
 				names[i] = kinds[k].Name
 			}
-			cases = append(cases, loadCase{"entries", t.Value, "s", "directory", names})
+			cases = append(cases, loadCase{Part: "entries", Type: t.Value, Name: "s", Path: "directory", Entries: names})
 		}
 	}
 	nEntries := len(cases)
 	for _, t := range storeTypes[:nTypes] {
 		for _, n := range storeNames[:nNames] {
 			for _, p := range pathKinds {
-				cases = append(cases, loadCase{"paths", t.Value, n.Value, p, goodContent})
+				cases = append(cases, loadCase{Part: "paths", Type: t.Value, Name: n.Value, Path: p, Entries: goodContent})
 			}
 		}
+	}
+	// instance reuse: every case again on a trust-store instance that loaded two other stores before
+	for _, c := range append([]loadCase(nil), cases...) {
+		c.Prior = 1
+		cases = append(cases, c)
 	}
 	r.Extra["entry_kinds"] = len(kinds)
 	r.Extra["max_entries_per_store"] = maxLen
